@@ -252,6 +252,31 @@ fn directed_prog(ctx: &mut Ctx, which: usize) -> Prog {
             items.push(rule(atom("p", vec![x.clone()]), vec![pos("dr2", vec![x.clone()])]));
             idb = vec![("dr".into(), 1), ("dr2".into(), 1), ("p".into(), 1)];
         }
+        14 => { // GROUND negated atom with an integer literal: rule literals are narrowed to Int32, stored
+                // facts are Int64 — the blocking fact flag(2,1) IS stored, p(1) holds through P=3
+            shape = "neg-ground-literal";
+            let k = 1 + ctx.below(2) as i64;
+            if ctx.chance(4, 5) { items.insert(0, fact("flag", &[2, k])); items.insert(0, fact("e", &[1, 3])); items.insert(0, fact("e", &[1, 2])); }
+            items.push(fact("flag", &[4, 9]));
+            if ctx.chance(1, 2) { items.push(fact("flag", &[*ctx.pick(&dom), k])); }
+            items.push(rule(atom("p", vec![x.clone()]), vec![pos("e", vec![x.clone(), v("P")]), neg("flag", vec![v("P"), c(k)])]));
+            idb = vec![("p".into(), 1)];
+        }
+        15 => { // literal in the FIRST position of a negated atom over e/2, bound variable second: !e(2, Y)
+            shape = "neg-literal-first";
+            if ctx.chance(4, 5) { items.insert(0, fact("f", &[4])); items.insert(0, fact("f", &[3])); items.insert(0, fact("e", &[2, 3])); }
+            items.push(rule(atom("q", vec![y.clone()]), vec![pos("f", vec![y.clone()]), neg("e", vec![c(2), y.clone()])]));
+            items.push(rule(atom("s", vec![x.clone()]), vec![pos("g", vec![x.clone(), y.clone()]), neg("e", vec![c(2), y.clone()]), neg("f", vec![x.clone()])]));
+            idb = vec![("q".into(), 1), ("s".into(), 1)];
+        }
+        16 => { // ground negation with literals in a second clause / behind a join, answer through another binding
+            shape = "neg-ground-literal-join";
+            if ctx.chance(4, 5) { items.insert(0, fact("flag", &[3, 1])); items.insert(0, fact("g", &[2, 4])); items.insert(0, fact("g", &[2, 3])); items.insert(0, fact("e", &[1, 2])); }
+            items.push(rule(atom("p", vec![x.clone()]), vec![pos("e", vec![x.clone(), y.clone()]), pos("g", vec![y.clone(), z.clone()]), neg("flag", vec![z.clone(), c(1)]), cmp(x.clone(), ComparisonOp::LessThan, z.clone())]));
+            items.push(fact("flag", &[4, 9]));
+            items.push(rule(atom("p", vec![x.clone()]), vec![pos("f", vec![x.clone()]), neg("e", vec![x.clone(), c(4)])]));
+            idb = vec![("p".into(), 1)];
+        }
         _ => { // two-level positive: q(X) <- p(X); p from a join
             shape = "two-level";
             items.push(rule(atom("p", vec![x.clone()]), vec![pos("e", vec![x.clone(), y.clone()]), pos("f", vec![y.clone()])]));
@@ -261,11 +286,18 @@ fn directed_prog(ctx: &mut Ctx, which: usize) -> Prog {
     }
     Prog { items, idb, edb: vec![("e".into(), 2), ("f".into(), 1), ("g".into(), 2)], shape, dom, recursive }
 }
-pub const N_DIRECTED: usize = 15;
+pub const N_DIRECTED: usize = 18;
+/// the shapes with ground negated atoms carrying integer literals (chosen more often)
+pub const NEG_LITERAL_SHAPES: [usize; 3] = [14, 15, 16];
 
 pub fn gen_prog(ctx: &mut Ctx, i: usize) -> Prog {
-    let p = if i % 5 < 2 { directed_prog(ctx, (i / 5 * 2 + i % 5) % N_DIRECTED) } else { random_prog(ctx) };
+    let p = if i % 5 == 0 { directed_prog(ctx, (i / 5) % N_DIRECTED) }
+        else if i % 5 == 1 { if (i / 5) % 2 == 0 { directed_prog(ctx, NEG_LITERAL_SHAPES[(i / 10) % 3]) } else { directed_prog(ctx, (i / 10 * 7 + 3) % N_DIRECTED) } }
+        else { random_prog(ctx) };
     ctx.count(&format!("shape_{}", p.shape));
+    if p.items.iter().any(|it| matches!(it, Item::Rule(r) if r.body.iter().any(|l| matches!(l, BodyPredicate::Negated(a) if a.args.iter().any(|t| matches!(t, Term::Constant(_))))))) {
+        ctx.count("programs_with_literal_in_negated_atom");
+    }
     p
 }
 
